@@ -475,7 +475,10 @@ package bits
 // rpay/rplen/rz: payload, its length and the zero run that the standard's emulation-prevention decoder derives from the
 // bytes consumed so far (maintained by the trusted model of binary.Read, independently of the code below).
 
-//@ pred erInv(r *EBSPReader) = r != nil && r.rd != nil && 0 <= r.n && r.n < 8 && r.v == r.v & mask(r.n) && r.pos+1 == ghost(r.rd).rpos && 0 <= ghost(r.rd).rpos && ghost(r.rd).rpos <= ghost(r.rd).rlen && ghost(r.rd).rlen <= 1<<48 && r.zeroCount == ghost(r.rd).rz && 0 <= ghost(r.rd).rz && ghost(r.rd).rz <= ghost(r.rd).rpos && 0 <= ghost(r.rd).rplen && ghost(r.rd).rplen <= ghost(r.rd).rpos && ebspSync(r.rd)
+//@ pred erInv0(r *EBSPReader) = r.rd != nil && 0 <= r.n && r.n < 8 && 0 <= ghost(r.rd).rpos && ghost(r.rd).rpos <= ghost(r.rd).rlen && ghost(r.rd).rlen <= 1<<48
+//@ pred erInvW(r *EBSPReader) = r != nil && erInv0(r) && r.pos+1 == ghost(r.rd).rpos && r.zeroCount == ghost(r.rd).rz && 0 <= ghost(r.rd).rz && ghost(r.rd).rz <= ghost(r.rd).rpos && 0 <= ghost(r.rd).rplen && ghost(r.rd).rplen <= ghost(r.rd).rpos && ebspSync(r.rd)
+//@ pred vMasked(r *EBSPReader) = r.v == r.v & mask(r.n)
+//@ pred erInv(r *EBSPReader) = erInvW(r) && vMasked(r)
 
 //@ func NewEBSPReader
 //@   requires rd != nil && ghost(rd).rpos == 0 && 0 <= ghost(rd).rlen && ghost(rd).rlen <= 1<<48 && ghost(rd).rz == 0 && ghost(rd).rplen == 0 && ebspSync(rd)
@@ -503,63 +506,67 @@ package bits
 //@   assigns nothing
 
 //@ func (*EBSPReader).Read
-//@   requires r != nil && (r.err == nil ==> erInv(r)) && 0 <= n && n <= 1<<52
+//@   requires r != nil && (r.err == nil ==> erInv0(r)) && 0 <= n && n <= 1<<52
 //@   ensures old(r.err) != nil ==> r.err != nil && result == 0
 //@   ensures r.rd == old(r.rd) && ghost(r.rd).rlen == old(ghost(r.rd).rlen) && ghost(r.rd).rdata == old(ghost(r.rd).rdata)
-//@   ensures r.err == nil ==> erInv(r)
-//@   ensures r.err != nil ==> result == 0
 //@   ensures old(r.err) == nil ==> ghost(r.rd).rpos >= old(ghost(r.rd).rpos) && ghost(r.rd).rpos <= ghost(r.rd).rlen
-//@   ensures r.err == nil ==> 8*(ghost(r.rd).rpos - old(ghost(r.rd).rpos)) >= r.n + n - old(r.n)
-//@   ensures n <= 1 ==> result <= 1
-//@   ensures[C13] r.err == nil && n <= 32 ==> ghost(r.rd).rplen == old(ghost(r.rd).rplen) + nrBytes(old(r.n), n) && r.n == old(r.n) + 8*nrBytes(old(r.n), n) - n
-//@   ensures[C13] r.err == nil && n <= 32 ==> result == ((old(r.v) << uint(8*nrBytes(old(r.n), n))) | rdBytes(ghost(r.rd).rpay, old(ghost(r.rd).rplen), nrBytes(old(r.n), n))) >> uint(r.n)
-//@   ensures[C13] r.err == nil && n <= 32 ==> r.v == ((old(r.v) << uint(8*nrBytes(old(r.n), n))) | rdBytes(ghost(r.rd).rpay, old(ghost(r.rd).rplen), nrBytes(old(r.n), n))) & mask(r.n)
-//@   ensures[C13] old(r.err) == nil ==> forall i int :: 0 <= i && i < old(ghost(r.rd).rplen) ==> ghost(r.rd).rpay[i] == old(ghost(r.rd).rpay[i])
-//@   loop 1 invariant r != nil && r.err == nil && r.rd == old(r.rd) && r.rd != nil && 0 <= old(r.n) && old(r.n) < 8 && old(r.v) == old(r.v) & mask(old(r.n))
+//@   ensures old(r.err) == nil && (r.err == nil || n <= 8) ==> erInv0(r)
+//@   ensures r.err == nil && old(erInvW(r)) ==> erInv(r)
+//@   ensures r.err != nil ==> result == 0
+//@   ensures r.err == nil ==> (old(r.n) >= n && r.n == old(r.n) - n && ghost(r.rd).rpos == old(ghost(r.rd).rpos)) || (old(r.n) < n && r.n < 8 && ghost(r.rd).rpos > old(ghost(r.rd).rpos))
+//@   ensures[C13] r.err == nil && n <= 32 && old(erInv(r)) ==> ghost(r.rd).rplen == old(ghost(r.rd).rplen) + nrBytes(old(r.n), n) && r.n == old(r.n) + 8*nrBytes(old(r.n), n) - n
+//@   ensures[C13] r.err == nil && n <= 32 && old(erInv(r)) ==> result == ((old(r.v) << uint(8*nrBytes(old(r.n), n))) | rdBytes(ghost(r.rd).rpay, old(ghost(r.rd).rplen), nrBytes(old(r.n), n))) >> uint(r.n)
+//@   ensures[C13] r.err == nil && n <= 32 && old(erInv(r)) ==> r.v == ((old(r.v) << uint(8*nrBytes(old(r.n), n))) | rdBytes(ghost(r.rd).rpay, old(ghost(r.rd).rplen), nrBytes(old(r.n), n))) & mask(r.n)
+//@   ensures[C13] old(r.err) == nil && old(erInvW(r)) ==> forall i int :: 0 <= i && i < old(ghost(r.rd).rplen) ==> ghost(r.rd).rpay[i] == old(ghost(r.rd).rpay[i])
+//@   loop 1 invariant r != nil && r.err == nil && r.rd == old(r.rd) && r.rd != nil && 0 <= old(r.n) && old(r.n) < 8
 //@   loop 1 invariant old(r.n) <= r.n && r.n < n+8 && (r.n-old(r.n))%8 == 0
 //@   loop 1 invariant ghost(r.rd).rlen == old(ghost(r.rd).rlen) && ghost(r.rd).rdata == old(ghost(r.rd).rdata) && ghost(r.rd).rlen <= 1<<48
-//@   loop 1 invariant r.pos+1 == ghost(r.rd).rpos && 8*(ghost(r.rd).rpos - old(ghost(r.rd).rpos)) >= r.n - old(r.n) && old(ghost(r.rd).rpos) <= ghost(r.rd).rpos && 0 <= old(ghost(r.rd).rpos) && ghost(r.rd).rpos <= ghost(r.rd).rlen
-//@   loop 1 invariant r.zeroCount == ghost(r.rd).rz && 0 <= ghost(r.rd).rz && ghost(r.rd).rz <= ghost(r.rd).rpos && ebspSync(r.rd)
-//@   loop 1 invariant 0 <= old(ghost(r.rd).rplen) && old(ghost(r.rd).rplen) <= ghost(r.rd).rplen && ghost(r.rd).rplen <= ghost(r.rd).rpos
-//@   loop 1 invariant forall i int :: 0 <= i && i < old(ghost(r.rd).rplen) ==> ghost(r.rd).rpay[i] == old(ghost(r.rd).rpay[i])
-//@   loop 1 invariant n <= 32 ==> (r.n-old(r.n))/8 <= 4 && ghost(r.rd).rplen == old(ghost(r.rd).rplen) + (r.n-old(r.n))/8
-//@   loop 1 invariant n <= 32 ==> r.v == (old(r.v) << uint(r.n-old(r.n))) | rdBytes(ghost(r.rd).rpay, old(ghost(r.rd).rplen), (r.n-old(r.n))/8)
+//@   loop 1 invariant (r.n == old(r.n) && ghost(r.rd).rpos == old(ghost(r.rd).rpos)) || (r.n > old(r.n) && ghost(r.rd).rpos > old(ghost(r.rd).rpos))
+//@   loop 1 invariant old(ghost(r.rd).rpos) <= ghost(r.rd).rpos && 0 <= old(ghost(r.rd).rpos) && ghost(r.rd).rpos <= ghost(r.rd).rlen
+//@   loop 1 invariant old(erInvW(r)) ==> r.pos+1 == ghost(r.rd).rpos && r.zeroCount == ghost(r.rd).rz && 0 <= ghost(r.rd).rz && ghost(r.rd).rz <= ghost(r.rd).rpos && ebspSync(r.rd)
+//@   loop 1 invariant old(erInvW(r)) ==> 0 <= old(ghost(r.rd).rplen) && old(ghost(r.rd).rplen) <= ghost(r.rd).rplen && ghost(r.rd).rplen <= ghost(r.rd).rpos
+//@   loop 1 invariant old(erInvW(r)) ==> forall i int :: 0 <= i && i < old(ghost(r.rd).rplen) ==> ghost(r.rd).rpay[i] == old(ghost(r.rd).rpay[i])
+//@   loop 1 invariant n <= 32 && old(erInv(r)) ==> (r.n-old(r.n))/8 <= 4 && ghost(r.rd).rplen == old(ghost(r.rd).rplen) + (r.n-old(r.n))/8
+//@   loop 1 invariant n <= 32 && old(erInv(r)) ==> r.v == (old(r.v) << uint(r.n-old(r.n))) | rdBytes(ghost(r.rd).rpay, old(ghost(r.rd).rplen), (r.n-old(r.n))/8)
 //@   loop 1 decreases n - r.n
 
 //@ func (*EBSPReader).ReadFlag
-//@   requires r != nil && (r.err == nil ==> erInv(r))
-//@   ensures old(r.err) != nil ==> r.err != nil && result == false
-//@   ensures r.rd == old(r.rd) && (r.err == nil ==> erInv(r))
-//@   ensures r.err == nil ==> 8*(ghost(r.rd).rpos - old(ghost(r.rd).rpos)) >= r.n + 1 - old(r.n)
-//@   ensures old(r.err) == nil ==> ghost(r.rd).rpos >= old(ghost(r.rd).rpos) && ghost(r.rd).rpos <= ghost(r.rd).rlen && ghost(r.rd).rlen == old(ghost(r.rd).rlen)
+//@   requires erOK(r)
+//@   ensures r.rd == old(r.rd) && erOK(r) && (old(r.err) != nil ==> r.err != nil && result == false)
+//@   ensures r.err == nil && old(erInvW(r)) ==> erInv(r)
+//@   ensures r.err == nil ==> (old(r.n) >= 1 && r.n == old(r.n) - 1 && ghost(r.rd).rpos == old(ghost(r.rd).rpos)) || (old(r.n) < 1 && r.n < 8 && ghost(r.rd).rpos > old(ghost(r.rd).rpos))
+//@   ensures old(r.err) == nil ==> ghost(r.rd).rpos >= old(ghost(r.rd).rpos) && ghost(r.rd).rlen == old(ghost(r.rd).rlen)
 
 //@ func (*EBSPReader).ReadBytes
-//@   requires r != nil && (r.err == nil ==> erInv(r)) && 0 <= n && n <= 1<<48
-//@   ensures old(r.err) != nil ==> r.err != nil
-//@   ensures r.rd == old(r.rd) && (r.err == nil ==> erInv(r) && len(result) == n)
+//@   requires erOK(r) && 0 <= n && n <= 1<<48
+//@   ensures r.rd == old(r.rd) && erOK(r) && (old(r.err) != nil ==> r.err != nil)
+//@   ensures r.err == nil ==> len(result) == n
 //@   ensures r.err != nil ==> len(result) == 0
-//@   loop 1 invariant r != nil && r.rd == old(r.rd) && (r.err == nil ==> erInv(r)) && 0 <= i && i <= n && len(payload) == n
+//@   ensures r.err == nil && old(erInvW(r)) ==> erInvW(r)
+//@   loop 1 invariant r != nil && r.rd == old(r.rd) && erOK(r) && 0 <= i && i <= n && len(payload) == n && (old(erInvW(r)) && r.err == nil ==> erInvW(r))
 //@   loop 1 decreases n - i
 
 //@ func (*EBSPReader).ReadExpGolomb
-//@   requires r != nil && (r.err == nil ==> erInv(r))
-//@   ensures old(r.err) != nil ==> r.err != nil && result == 0
-//@   ensures r.rd == old(r.rd) && (r.err == nil ==> erInv(r))
+//@   requires erOK(r)
+//@   ensures r.rd == old(r.rd) && erOK(r) && (old(r.err) != nil ==> r.err != nil && result == 0)
 //@   ensures r.err != nil ==> result == 0
-//@   ensures old(r.err) == nil ==> ghost(r.rd).rpos >= old(ghost(r.rd).rpos) && ghost(r.rd).rpos <= ghost(r.rd).rlen && ghost(r.rd).rlen == old(ghost(r.rd).rlen)
-//@   loop 1 invariant r != nil && r.rd == old(r.rd) && r.err == nil && erInv(r) && ghost(r.rd).rlen == old(ghost(r.rd).rlen) && ghost(r.rd).rpos >= old(ghost(r.rd).rpos)
-//@   loop 1 invariant 0 <= leadingZeroBits && leadingZeroBits <= 8*(ghost(r.rd).rpos - old(ghost(r.rd).rpos)) + old(r.n) - r.n && old(erInv(r))
-//@   loop 1 decreases 8*(ghost(r.rd).rlen - ghost(r.rd).rpos) + r.n
+//@   ensures r.err == nil && old(erInvW(r)) ==> erInvW(r)
+//@   ensures r.err == nil && old(erInv(r)) ==> erInv(r)
+//@   ensures old(r.err) == nil ==> ghost(r.rd).rpos >= old(ghost(r.rd).rpos) && ghost(r.rd).rlen == old(ghost(r.rd).rlen)
+//@   loop 1 invariant r != nil && r.rd == old(r.rd) && r.err == nil && erInv0(r) && old(erInv0(r)) && ghost(r.rd).rlen == old(ghost(r.rd).rlen) && ghost(r.rd).rpos >= old(ghost(r.rd).rpos) && (old(erInvW(r)) ==> erInvW(r)) && (old(erInv(r)) ==> erInv(r))
+//@   loop 1 invariant 0 <= leadingZeroBits && leadingZeroBits <= 8*(ghost(r.rd).rpos - old(ghost(r.rd).rpos)) + old(r.n) - r.n
+//@   loop 1 decreases ghost(r.rd).rlen - ghost(r.rd).rpos, r.n
 
 //@ func (*EBSPReader).ReadSignedGolomb
-//@   requires r != nil && (r.err == nil ==> erInv(r))
-//@   ensures old(r.err) != nil ==> r.err != nil && result == 0
-//@   ensures r.rd == old(r.rd) && (r.err == nil ==> erInv(r))
-//@   ensures old(r.err) == nil ==> ghost(r.rd).rpos >= old(ghost(r.rd).rpos) && ghost(r.rd).rpos <= ghost(r.rd).rlen && ghost(r.rd).rlen == old(ghost(r.rd).rlen)
+//@   requires erOK(r)
+//@   ensures r.rd == old(r.rd) && erOK(r) && (old(r.err) != nil ==> r.err != nil && result == 0)
+//@   ensures r.err == nil && old(erInvW(r)) ==> erInvW(r)
+//@   ensures r.err == nil && old(erInv(r)) ==> erInv(r)
+//@   ensures old(r.err) == nil ==> ghost(r.rd).rpos >= old(ghost(r.rd).rpos) && ghost(r.rd).rlen == old(ghost(r.rd).rlen)
 
 //@ func (*EBSPReader).SetError
 //@   requires r != nil
-//@   ensures r.rd == old(r.rd) && (old(r.err) != nil ==> r.err == old(r.err)) && (old(r.err) == nil ==> r.err == err)
+//@   ensures r.n == old(r.n) && r.rd == old(r.rd) && (old(r.err) != nil ==> r.err == old(r.err)) && (old(r.err) == nil ==> r.err == err)
 //@   assigns r.err
 
 //@ func (*EBSPReader).IsSeeker
@@ -570,21 +577,24 @@ package bits
 //@ func (*EBSPReader).reset
 //@   requires r != nil && implements(r.rd, "io.ReadSeeker")
 //@   ensures r.rd == old(r.rd) && r.err == old(r.err) && ghost(r.rd).rlen == old(ghost(r.rd).rlen) && ghost(r.rd).rdata == old(ghost(r.rd).rdata)
+//@   ensures old(0 <= ghost(r.rd).rpos && ghost(r.rd).rpos <= ghost(r.rd).rlen) ==> 0 <= ghost(r.rd).rpos && ghost(r.rd).rpos <= ghost(r.rd).rlen
 //@   ensures result == nil ==> r.n == prevState.n && r.v == prevState.v && r.pos == prevState.pos && r.zeroCount == prevState.zeroCount
 //@   ensures result == nil && 0 <= prevState.pos+1 && prevState.pos+1 <= ghost(r.rd).rlen ==> ghost(r.rd).rpos == prevState.pos+1 && ebspSync(r.rd)
 
 //@ func (*EBSPReader).MoreRbspData
-//@   requires r != nil && (r.err == nil ==> erInv(r))
-//@   ensures r.rd == old(r.rd)
-//@   ensures old(r.err) == nil && r.err == nil && result1 == nil ==> erInv(r) && ghost(r.rd).rpos == old(ghost(r.rd).rpos) && r.n == old(r.n) && r.v == old(r.v)
-//@   loop 1 invariant r != nil && r.rd == old(r.rd) && r.err == nil && erInv(r) && ghost(r.rd).rlen == old(ghost(r.rd).rlen) && ghost(r.rd).rdata == old(ghost(r.rd).rdata) && old(erInv(r)) && stateCopy.pos == old(r.pos) && stateCopy.n == old(r.n) && stateCopy.v == old(r.v) && stateCopy.zeroCount == old(r.zeroCount)
-//@   loop 1 decreases 8*(ghost(r.rd).rlen - ghost(r.rd).rpos) + r.n
+//@   requires erOK(r)
+//@   ensures r.rd == old(r.rd) && (old(r.err) != nil ==> r.err != nil)
+//@   ensures old(r.err) == nil && r.err == nil && result1 == nil && old(erInvW(r)) ==> erInvW(r) && ghost(r.rd).rpos == old(ghost(r.rd).rpos) && r.n == old(r.n) && r.v == old(r.v)
+//@   ensures r.err == nil && result1 == nil ==> erInv0(r)
+//@   loop 1 invariant r != nil && r.rd == old(r.rd) && r.err == nil && erInv0(r) && ghost(r.rd).rlen == old(ghost(r.rd).rlen) && ghost(r.rd).rdata == old(ghost(r.rd).rdata) && old(erInv0(r)) && old(r.err) == nil && implements(r.rd, "io.ReadSeeker")
+//@   loop 1 invariant stateCopy.pos == old(r.pos) && stateCopy.n == old(r.n) && stateCopy.v == old(r.v) && stateCopy.zeroCount == old(r.zeroCount)
+//@   loop 1 decreases ghost(r.rd).rlen - ghost(r.rd).rpos, r.n
 
 //@ func (*EBSPReader).ReadRbspTrailingBits
-//@   requires r != nil && (r.err == nil ==> erInv(r))
-//@   ensures r.rd == old(r.rd)
-//@   loop 1 invariant r != nil && r.rd == old(r.rd) && r.err == nil && erInv(r) && ghost(r.rd).rlen == old(ghost(r.rd).rlen)
-//@   loop 1 decreases 8*(ghost(r.rd).rlen - ghost(r.rd).rpos) + r.n
+//@   requires erOK(r)
+//@   ensures r.rd == old(r.rd) && erOK(r)
+//@   loop 1 invariant r != nil && r.rd == old(r.rd) && r.err == nil && erInv0(r) && ghost(r.rd).rlen == old(ghost(r.rd).rlen)
+//@   loop 1 decreases ghost(r.rd).rlen - ghost(r.rd).rpos, r.n
 
 //@ func (*FixedSliceWriter).WriteBits
 //@   requires sw != nil && (sw.accError == nil ==> swInv(sw) && 0 <= sw.n && sw.n < 8 && 0 <= n && n <= 32)
@@ -649,7 +659,7 @@ package bits
 // ---------------------------------------------------------------- type invariants and devirtualisation (used by all packages)
 // Functions without a written contract get these as requires/ensures for parameters of the given types.
 
-//@ pred erOK(r *EBSPReader) = r != nil && (r.err == nil ==> erInv(r))
+//@ pred erOK(r *EBSPReader) = r != nil && (r.err == nil ==> erInv0(r))
 //@ pred ewOK(w *EBSPWriter) = w != nil && (w.err == nil ==> ewInv(w))
 //@ pred rOK(r *Reader) = r != nil && (r.err == nil ==> rInv(r))
 //@ pred wOK(w *Writer) = w != nil && (w.err == nil ==> wInv(w))
